@@ -42,6 +42,7 @@ inductive Err where
   | never             -- Errors.Never ('Already processing', restore_symbols.py:33-34)
   | unresolvedSymbol  -- Errors.UnresolvedSymbol (render time)
   | fatal             -- Errors.Fatal (render time)
+  | loadFatal         -- Errors.Fatal (load time: a non-tranp exception inside Modules.load, modules.py:89-91)
   | recursion         -- RecursionError (model fuel exhausted)
   | other
 deriving DecidableEq, Repr
@@ -54,6 +55,7 @@ def Err.toString : Err → String
   | .never => "Errors.Never"
   | .unresolvedSymbol => "Errors.UnresolvedSymbol"
   | .fatal => "Errors.Fatal"
+  | .loadFatal => "Errors.Fatal"
   | .recursion => "RecursionError"
   | .other => "Other"
 
@@ -158,6 +160,8 @@ structure State (Src Tree NV V Text : Type) where
   completed : List ModPath := []
   /-- symbol files written by StoreSymbols during this session (private cache directory, empty at start) -/
   stored : List (ModPath × List (Key × V)) := []
+  /-- modules whose imports have all been loaded: `Module.depends_on` was called (modules.py:112-113, module.py:62-68) -/
+  ident : List ModPath := []
   /-- `Py2Cpp.__stack_on_depends` -/
   deps : List (List Str) := []
   /-- `Procedure.__stacks` -/
@@ -218,8 +222,41 @@ def epLoad (s : St L) (p : ModPath) : Except Err Unit × St L :=
   | (.ok t, s1) => (.ok (), { s1 with eps := s1.eps ++ [(p, ⟨t, []⟩)] })
   | (.error e, s1) => (.error e, s1)
 
-/-- `ModuleLoader.preprocess` (providers/module.py:86-95) with the five processors of providers/semantics.py:36-42 -/
-def preprocess (s : St L) (p : ModPath) : Except Err Unit × St L :=
+/-- `Module.__collect_hashes` (module.py:97-118, since c3eaa55): depth-first over the import closure with a visited set
+    (`hashes`, keyed by file). `ws` = modules still to visit (in `__depends` order), `vis` = visited files.
+    A module whose `__depends` is set (`dset`) is followed through its imports that are files; a module that is still in the
+    middle of being loaded (an import cycle) contributes the files of ITS direct imports without following them, and
+    `sources.hash` raises FileNotFoundError (→ Errors.Fatal, modules.py:89-91) for one that is not a file. -/
+def identWalk (s : St L) (dset : List ModPath) : Nat → List ModPath → List ModPath → Except Err Unit
+  | _, [], _ => .ok ()
+  | 0, _ :: _, _ => .error .recursion
+  | f + 1, x :: rest, vis =>
+    if x ∈ vis then identWalk s dset f rest vis else                           -- `if self.filepath in hashes: return`
+    match alookup s.eps x with
+    | none => .error .other
+    | some ep =>
+      if x ∈ dset then
+        identWalk s dset f ((L.imports ep.tree).filter (fun d => onDisk E d) ++ rest) (x :: vis)
+      else
+        match (L.imports ep.tree).foldl (fun (acc : Option (List ModPath)) d' =>
+            match acc with
+            | none => none
+            | some v => if d' ∈ v then some v else if onDisk E d' then some (d' :: v) else none) (some (x :: vis)) with
+        | none => .error .loadFatal                                             -- FileNotFoundError
+        | some vis' => identWalk s dset f rest vis'
+
+/-- number of steps `identWalk` can take: every registered module is expanded at most once -/
+def identFuel (s : St L) : Nat := s.eps.foldl (fun n e => n + (L.imports e.2.tree).length + 2) 2
+
+/-- `Module.identity()` of `p` as RestoreSymbols → `persistor.stored` → `_gen_filepath` calls it (module.py:71-95).
+    `ident` = the modules whose `depends_on` has been called (modules.py:113, right before the preprocess). -/
+def identStep (s : St L) (p : ModPath) : Except Err Unit × St L :=
+  if !onDisk E p then (.ok (), s) else          -- not in storage: `str(id(self))`
+  let s' : St L := { s with ident := addIfAbsent s.ident p }
+  (identWalk L E s' s'.ident (identFuel L s') [p] [], s')
+
+/-- the processors (providers/semantics.py:36-42) after the identity has been computed -/
+def preprocessCore (s : St L) (p : ModPath) : Except Err Unit × St L :=
   -- RestoreSymbols (restore_symbols.py:33-40)
   if hasModule s.db p then (.error .never, s) else
   match (if onDisk E p then alookup s.stored p else none) with
@@ -247,12 +284,21 @@ def preprocess (s : St L) (p : ModPath) : Except Err Unit × St L :=
           (.ok (), { s3 with stored := s3.stored ++ [(p, tableOf s3.db p)] })
         else (.ok (), s3)
 
+/-- `ModuleLoader.preprocess` (providers/module.py:86-95): RestoreSymbols first checks `has_module`, then asks the persistor,
+    which computes the module identity; then the processors run -/
+def preprocess (s : St L) (p : ModPath) : Except Err Unit × St L :=
+  if hasModule s.db p then (.error .never, s) else
+  match identStep L E s p with
+  | (.error e, s1) => (.error e, s1)
+  | (.ok _, s1) => preprocessCore L E s1 p
+
 /-- removal of one module: `ModuleLoader.unload` → `Entrypoints.unload`, `SymbolDB.unload`; `del __modules[m]`
     (modules.py:134-136, providers/module.py:76-84, entrypoints.py:64-71, db.py:144-156) -/
 def unloadOne (s : St L) (m : ModPath) : St L :=
   { s with eps := aerase s.eps m,
            completed := s.completed.filter (fun x => x ≠ m),
            db := s.db.filter (fun kv => modOf kv.1 ≠ m),
+           ident := s.ident.filter (fun x => x ≠ m),
            mods := s.mods.filter (fun x => x ≠ m) }
 
 /-- `Modules.__dependent_paths(m)` (modules.py:141-158): the registered modules that import `m`; every non-library module
@@ -425,7 +471,10 @@ def expandVars : List (Str × Bool) → List (Str × Str) → List (Str × Str) 
 
 def descExpand (p : ModPath) (nf : Str → Desc) (look : Key → Option Str) : List (Str × Str) × Option Err :=
   let d := nf rootQ
-  let r1 := expandImports look d.imports (d.classRows p)
+  -- the class symbols are inserted before the imports are resolved: a module that imports one of its own classes finds it
+  let own := (d.classRows p).map (fun lv => (fullJoined p lv.1, lv.2))
+  let look' : Key → Option Str := fun k => (alookup own k).orElse (fun _ => look k)
+  let r1 := expandImports look' d.imports (d.classRows p)
   match r1.2 with
   | some e => (r1.1, some e)
   | none => expandVars d.vars (r1.1 ++ d.fnVarRows)
